@@ -609,3 +609,43 @@ package hclwrite
 //@ ensures counted: consumed == old(consumed) + len(from.nativeTokens) - len(ret0.nativeTokens) - len(ret2.nativeTokens)
 //@ ensures pairedOut: paired(ret0) && paired(ret2)
 //@ loop 3 invariant paired(remain) && paired(before) && paired(after) && consumed == old(consumed) + len(within.nativeTokens) - len(remain.nativeTokens)
+
+// ---- label read accessor (unit U8, C12: "the API's own read accessors agree with the model") ----
+// verif:unit U8 props=C12
+//
+// A label node is either an identifier or a quoted string whose tokens are an opening quote,
+// any number of literal pieces (the scanner splits a literal at '$' and '%') and a closing quote.
+// This is what the loader (parseBlockLabels) and the generator (TokensForValue of a string) produce.
+// litOK(b): the literal bytes b hold no invalid escape sequence (uninterpreted; see ParseStringLiteralToken).
+// verif:specfunc litOK(b []byte) bool
+// verif:pred hasErr(d hcl.Diagnostics) = exists j int :: 0 <= j && j < len(d) && d[j].Severity == 1
+// verif:pred QuotedWF(ts Tokens) = len(ts) >= 2 && (forall i int :: { ts[i] } 0 <= i && i < len(ts) ==> ts[i] != nil) && ts[0].Type == hclsyntax.TokenOQuote && ts[len(ts) - 1].Type == hclsyntax.TokenCQuote && (forall i int :: { ts[i] } 1 <= i && i < len(ts) - 1 ==> ts[i].Type == hclsyntax.TokenQuotedLit && litOK(ts[i].Bytes))
+// verif:pred LabelNodeWF(k *node) = k != nil && ((typeis(k.content, ptr(identifier)) && unbox(k.content, ptr(identifier)) != nil && unbox(k.content, ptr(identifier)).token != nil && unbox(k.content, ptr(identifier)).token.Type == hclsyntax.TokenIdent) || (typeis(k.content, ptr(quoted)) && unbox(k.content, ptr(quoted)) != nil && QuotedWF(unbox(k.content, ptr(quoted)).tokens)))
+
+// 'listed' is the length of the slice the most recent nodeSet.List call returned.
+// verif:ghostvar listed int
+// verif:func (nodeSet).List
+//@ requires (forall r ref :: { has(ns, r) } has(ns, r) ==> r != nil && allocated(r)) && (forall k *node :: { has(ns, k) } has(ns, k) ==> k != nil && k.list != nil)
+//@ assigns listed
+//@ ghost listed = len(ret)
+//@ ensures members: forall i int :: { ret[i] } 0 <= i && i < len(ret) ==> has(ns, ret[i])
+//@ ensures listed == len(ret)
+//@ loop 1 invariant len(ret) >= 0 && (forall i int :: { ret[i] } 0 <= i && i < len(ret) ==> has(ns, ret[i]))
+
+// verif:extfunc github.com/hashicorp/hcl/v2.(Diagnostics).HasErrors
+//@ pure
+//@ ensures ret == hasErr(d)
+
+// The escape decoder itself is not under contract here: litOK is defined as "it reports no error".
+// verif:extfunc github.com/hashicorp/hcl/v2/hclsyntax.ParseStringLiteralToken
+//@ trusted
+//@ requires tok.Type == TokenQuotedLit || tok.Type == TokenStringLit
+//@ assigns nothing
+//@ ensures litOK(tok.Bytes) ==> !hasErr(ret1)
+
+// Every well-formed label yields exactly one string: none is dropped, none is added.
+// verif:func (*blockLabels).Current
+//@ requires bl.items != nil && (forall r ref :: { has(bl.items, r) } has(bl.items, r) ==> r != nil && allocated(r)) && (forall k *node :: { has(bl.items, k) } has(bl.items, k) ==> LabelNodeWF(k) && k.list != nil)
+//@ assigns listed
+//@ ensures count: len(ret) == listed
+//@ loop 1 invariant len(labelNames) == rangeindex + 1 && fresh(labelNames) && rangeindex + 1 <= len(list)
